@@ -2,21 +2,36 @@ package rules
 
 import (
 	"go/types"
+	"strings"
 
 	"golang.org/x/tools/go/ssa"
 
 	"verif/tool/internal/core"
 )
 
-// Engine describes one traceroute engine (a module function that calls TracerouteDriver.SendProbe).
+// Engine describes one traceroute engine: a root function of the package that defines TracerouteDriver from which an invoke of
+// TracerouteDriver.SendProbe is reached, together with its Scope – the root, its closures and every function of the same package
+// it reaches (helpers it was split into: a sender / receiver function, a slot-table type with constructor and methods, ...).
 type Engine struct {
 	Fn        *ssa.Function
 	Name      string
-	Results   *ssa.MakeSlice   // the []*ProbeResponse slot table
-	SendSites []ssa.Instruction // invoke SendProbe (in Fn or its closures)
+	Scope     []*ssa.Function
+	Results   *ssa.MakeSlice    // the []*ProbeResponse slot table
+	SendSites []ssa.Instruction // invoke SendProbe (anywhere in Scope)
 	RecvSites []*ssa.Call       // invoke ReceiveProbe
-	Stores    []*ssa.Store      // stores into elements of Results
-	Update    *ssa.Function    // closure that holds the store, when not the receiver itself
+	Stores    []*ssa.Store      // stores into elements of the slot table
+	Update    *ssa.Function     // function that holds the store, when not the root itself
+	// TableFields: (struct type, field) pairs the slot table is kept in when it lives in a struct ("T.field")
+	TableFields map[string]bool
+}
+
+func (e *Engine) inScope(f *ssa.Function) bool {
+	for _, g := range e.Scope {
+		if g == f {
+			return true
+		}
+	}
+	return false
 }
 
 func isDriverInvoke(c *ssa.CallCommon, method string) bool {
@@ -31,15 +46,89 @@ func withClosures(f *ssa.Function) []*ssa.Function {
 	return out
 }
 
-// Engines resolves the engines structurally: who calls TracerouteDriver.SendProbe.
+func hasDriverInvoke(f *ssa.Function, method string) bool {
+	for _, b := range f.Blocks {
+		for _, in := range b.Instrs {
+			if ci, ok := in.(ssa.CallInstruction); ok && isDriverInvoke(ci.Common(), method) {
+				return true
+			}
+		}
+	}
+	return false
+}
+
+func fieldKeyOf(fa *ssa.FieldAddr) string {
+	pt, ok := fa.X.Type().Underlying().(*types.Pointer)
+	if !ok {
+		return ""
+	}
+	return pt.Elem().String() + "." + core.FieldName(fa)
+}
+
+// isTable: v denotes the engine's slot table (the make itself, or a load of the struct field it is kept in).
+func (e *Engine) isTable(p *core.Prog, v ssa.Value) bool {
+	if e.Results != nil && p.Def(v) == ssa.Value(e.Results) {
+		return true
+	}
+	if ld, ok := v.(*ssa.UnOp); ok {
+		if fa, ok := ld.X.(*ssa.FieldAddr); ok && e.TableFields[fieldKeyOf(fa)] {
+			return true
+		}
+	}
+	return false
+}
+
+// Engines resolves the engines structurally: who reaches TracerouteDriver.SendProbe inside the package that defines the interface.
 func Engines(p *core.Prog) []*Engine {
-	var out []*Engine
+	pkg := p.SSAPkgs["common"]
+	if pkg == nil {
+		return nil
+	}
+	inPkg := func(f *ssa.Function) bool { return core.FuncPkg(f) == pkg.Pkg && f.Synthetic == "" }
+	scopeOf := func(f *ssa.Function) []*ssa.Function {
+		var sc []*ssa.Function
+		for _, g := range ModReach(p, f) {
+			if inPkg(g) {
+				sc = append(sc, g)
+			}
+		}
+		return sc
+	}
+	// candidates: top-level functions of the package whose scope contains a SendProbe invoke
+	var cands []*ssa.Function
+	scopes := map[*ssa.Function][]*ssa.Function{}
 	for _, f := range p.ModFuncs {
-		if f.Parent() != nil || f.Synthetic != "" {
+		if f.Parent() != nil || !inPkg(f) || strings.Contains(core.FuncName(f), "Mock") {
 			continue
 		}
-		e := &Engine{Fn: f, Name: core.FuncName(f)}
-		for _, g := range withClosures(f) {
+		sc := scopeOf(f)
+		for _, g := range sc {
+			if hasDriverInvoke(g, "SendProbe") {
+				cands = append(cands, f)
+				scopes[f] = sc
+				break
+			}
+		}
+	}
+	// roots: candidates that are not in the scope of another candidate
+	var out []*Engine
+	for _, f := range cands {
+		root := true
+		for _, h := range cands {
+			if h == f {
+				continue
+			}
+			for _, g := range scopes[h] {
+				if g == f {
+					root = false
+				}
+			}
+		}
+		if !root {
+			continue
+		}
+		e := &Engine{Fn: f, Name: core.FuncName(f), Scope: scopes[f], TableFields: map[string]bool{}}
+		for _, g := range e.Scope {
 			for _, b := range g.Blocks {
 				for _, in := range b.Instrs {
 					switch x := in.(type) {
@@ -51,18 +140,23 @@ func Engines(p *core.Prog) []*Engine {
 							e.RecvSites = append(e.RecvSites, x)
 						}
 					case *ssa.MakeSlice:
-						if sl, ok := x.Type().Underlying().(*types.Slice); ok && g == f && isNamed(sl.Elem(), core.ModulePath+"/common", "ProbeResponse") {
+						if sl, ok := x.Type().Underlying().(*types.Slice); ok && isNamed(sl.Elem(), core.ModulePath+"/common", "ProbeResponse") {
 							e.Results = x
 						}
 					}
 				}
 			}
 		}
-		if len(e.SendSites) == 0 {
-			continue
-		}
 		if e.Results != nil {
-			for _, g := range withClosures(f) {
+			// kept in a struct field?
+			for _, r := range *e.Results.Referrers() {
+				if st, ok := r.(*ssa.Store); ok && st.Val == ssa.Value(e.Results) {
+					if fa, ok := st.Addr.(*ssa.FieldAddr); ok {
+						e.TableFields[fieldKeyOf(fa)] = true
+					}
+				}
+			}
+			for _, g := range e.Scope {
 				for _, b := range g.Blocks {
 					for _, in := range b.Instrs {
 						st, ok := in.(*ssa.Store)
@@ -73,7 +167,7 @@ func Engines(p *core.Prog) []*Engine {
 						if !ok {
 							continue
 						}
-						if p.Def(ia.X) == ssa.Value(e.Results) {
+						if e.isTable(p, ia.X) {
 							e.Stores = append(e.Stores, st)
 							if g != f {
 								e.Update = g
